@@ -1,1 +1,211 @@
-//! (stub) filled in by its owner
+//! Running real dispatches under the controlled scheduler (DESIGN §4.3) and
+//! recording them as events for ShredTrace.tla.
+
+use std::{
+    panic::{catch_unwind, AssertUnwindSafe},
+    sync::{atomic::Ordering, Arc},
+    time::{Duration, Instant},
+};
+
+use rand::{rngs::StdRng, Rng, SeedableRng};
+use serde_json::{json, Value};
+use shred::World;
+
+use crate::{build::classify_panic, record::Recorded, sys::*};
+
+#[derive(Clone, Copy, Debug, PartialEq, Eq)]
+pub enum Mode {
+    Disp,
+    Par,
+    Seq,
+    TlOnly,
+}
+impl Mode {
+    pub fn name(&self) -> &'static str {
+        match self {
+            Mode::Disp => "disp",
+            Mode::Par => "par",
+            Mode::Seq => "seq",
+            Mode::TlOnly => "tlonly",
+        }
+    }
+}
+
+#[derive(Clone, Debug)]
+pub struct ExecOpts {
+    pub mode: Mode,
+    /// hold every system inside `run` and release one at a time
+    pub gated: bool,
+    /// how long the set of held systems must be stable before one is released
+    pub quiet_us: u64,
+    pub seed: u64,
+    /// free-running mode: random busy delay inside run (upper bound, micros)
+    pub jitter_us: u64,
+    /// systems that panic inside run
+    pub panics: Vec<usize>,
+    /// release policy: 0 random, 1 oldest first, 2 newest first
+    pub policy: u8,
+}
+
+#[derive(Default, Debug, Clone)]
+pub struct ExecStats {
+    pub releases: usize,
+    pub max_held: usize,
+    pub stalls: usize,
+}
+
+/// `dispatcher.setup(world)` on an empty world, then the `world0` event.
+pub fn setup_world(r: &mut Recorded, log_setup: bool) -> World {
+    let mut world = World::empty();
+    let ctx = r.rec.ctx.clone();
+    ctx.setup_log.store(log_setup, Ordering::Relaxed);
+    ctx.claim_caller();
+    if log_setup {
+        ctx.ev(json!({"ev":"setupcall","d":r.top,"phase":"begin"}));
+    }
+    let res = catch_unwind(AssertUnwindSafe(|| r.dispatcher.as_mut().unwrap().setup(&mut world)));
+    if log_setup {
+        ctx.ev(json!({"ev":"setupcall","d":r.top,"phase":"end","out": if res.is_ok() {"ok"} else {"panic"}}));
+    }
+    // resources no system mentions in a default-providing way do not exist for
+    // harness systems: HData::setup creates all of them, so nothing to add.
+    let mut evs = ctx.take_log();
+    evs.push(world_event("world0", &ctx, &world));
+    r.rec.events.append(&mut evs);
+    world
+}
+
+pub fn world_values(ctx: &Ctx, world: &World) -> (Vec<u32>, Vec<u32>) {
+    let mut rid = Vec::new();
+    let mut val = Vec::new();
+    for (res, cell) in &ctx.resmap {
+        if let Some(v) = cell.read(world) {
+            rid.push(*res);
+            val.push(v);
+        }
+    }
+    (rid, val)
+}
+
+fn world_event(name: &str, ctx: &Ctx, world: &World) -> Value {
+    let (rid, val) = world_values(ctx, world);
+    json!({"ev":name,"rid":rid,"val":val})
+}
+
+/// Quiescent probe (S3): every cell can be borrowed exclusively.
+pub fn all_free(ctx: &Ctx, world: &World) -> bool {
+    ctx.resmap.values().all(|c| {
+        // SAFETY: nothing is replaced; called only when no system runs
+        match unsafe { world.try_fetch_internal(c.rid()) } {
+            Some(cell) => cell.try_borrow_mut().is_ok(),
+            None => true,
+        }
+    })
+}
+
+/// The controller thread: waits until the set of held systems is stable,
+/// then releases one.  Timing only influences which overlaps are provoked,
+/// never how the recorded trace is judged (S2).
+fn controller(ctx: Arc<Ctx>, opts: ExecOpts) -> ExecStats {
+    let mut rng = StdRng::seed_from_u64(opts.seed ^ 0x5EED);
+    let quiet = Duration::from_micros(opts.quiet_us);
+    let mut stats = ExecStats::default();
+    let mut g = ctx.gate.lock().unwrap();
+    let mut last_progress = Instant::now();
+    loop {
+        // wait for a stable, non-empty waiting set (or the end of the dispatch)
+        loop {
+            if g.done && g.waiting.is_empty() {
+                return stats;
+            }
+            let n = g.waiting.len();
+            let arr = g.arrivals;
+            let (g2, to) = ctx.cv.wait_timeout(g, quiet).unwrap();
+            g = g2;
+            if g.waiting.len() == n && g.arrivals == arr && n > 0 && to.timed_out() {
+                break;
+            }
+            if n == 0 && last_progress.elapsed() > Duration::from_secs(20) {
+                stats.stalls += 1;
+                last_progress = Instant::now();
+            }
+        }
+        stats.max_held = stats.max_held.max(g.waiting.len());
+        let cand: Vec<usize> = g.waiting.iter().copied().filter(|x| !g.released.contains(x)).collect();
+        if cand.is_empty() {
+            continue;
+        }
+        let pick = match opts.policy {
+            1 => cand[0],
+            2 => *cand.last().unwrap(),
+            _ => cand[rng.gen_range(0..cand.len())],
+        };
+        g.released.insert(pick);
+        stats.releases += 1;
+        last_progress = Instant::now();
+        ctx.cv.notify_all();
+    }
+}
+
+/// One top-level dispatch call, recorded as begin .. end.
+pub fn run_dispatch(r: &mut Recorded, world: &World, opts: &ExecOpts) -> ExecStats {
+    let ctx = r.rec.ctx.clone();
+    ctx.claim_caller();
+    ctx.log_exec.store(true, Ordering::Relaxed);
+    ctx.jitter_us.store(if opts.gated { 0 } else { opts.jitter_us }, Ordering::Relaxed);
+    {
+        let mut ps = ctx.panic_set.lock().unwrap();
+        ps.clear();
+        ps.extend(opts.panics.iter().copied());
+    }
+    {
+        let mut g = ctx.gate.lock().unwrap();
+        *g = Gate::default();
+        g.enabled = opts.gated;
+    }
+    let sched = if opts.gated {
+        let c = ctx.clone();
+        let o = opts.clone();
+        Some(std::thread::spawn(move || controller(c, o)))
+    } else {
+        None
+    };
+    ctx.ev(json!({"ev":"begin","d":r.top,"mode":opts.mode.name(),"th":ctx.thread()}));
+    let d = r.dispatcher.as_mut().unwrap();
+    let res = catch_unwind(AssertUnwindSafe(|| match opts.mode {
+        Mode::Disp => d.dispatch(world),
+        #[cfg(feature = "parallel")]
+        Mode::Par => d.dispatch_par(world),
+        #[cfg(not(feature = "parallel"))]
+        Mode::Par => d.dispatch_seq(world),
+        Mode::Seq => d.dispatch_seq(world),
+        Mode::TlOnly => d.dispatch_thread_local(world),
+    }));
+    {
+        let mut g = ctx.gate.lock().unwrap();
+        g.done = true;
+        ctx.cv.notify_all();
+    }
+    let stats = sched.map(|h| h.join().unwrap()).unwrap_or_default();
+    {
+        let mut g = ctx.gate.lock().unwrap();
+        g.enabled = false;
+    }
+    let (rid, val) = world_values(&ctx, world);
+    let free = all_free(&ctx, world);
+    let (resk, who, msg) = match &res {
+        Ok(()) => ("ok", 0usize, String::new()),
+        Err(p) => {
+            if let Some(h) = p.downcast_ref::<HPanic>() {
+                ("panic", h.0, String::new())
+            } else {
+                let (_, m) = classify_panic(&**p);
+                ("panic", 0, m)
+            }
+        }
+    };
+    ctx.ev(json!({"ev":"end","d":r.top,"res":resk,"who":who,"msg":msg,"rid":rid,"val":val,"free":free}));
+    let mut evs = ctx.take_log();
+    r.rec.events.append(&mut evs);
+    stats
+}
